@@ -7,11 +7,19 @@
    optional blank before/after and optional final punctuation, all pinned at
    the first maths token; the collection stays rotated; rotation is cyclic,
    the k-th formula gets entry k mod n; neighbours differ (the collections
-   of /repo have no repetition and at least two entries).  Not proved: the
-   maths parser that cuts the formula out of the token stream
-   (run_math_section) and the treatment of \text parts; compared with the
+   of /repo have no repetition and at least two entries).  Through the loop
+   of the maths parser (C10_formula_through_the_loop): for every inline
+   formula whose body holds no declared control word, environment or
+   paragraph break (undeclared control words such as \alpha are covered),
+   whatever its length, `expand_inline_math` returns exactly: action token,
+   [blank], the placeholder, [punctuation], [blank], action token, the rest
+   of the text untouched behind the closing delimiter, the collection rotated
+   by one.  Not proved: bodies with declared control words (they re-enter the
+   expander) and the treatment of \text parts; compared with the
    implementation by the correspondence run on the C10 stream. *)
-From YV Require Import PyBase Token PState Parser Expand Math ExpandSites Catalogue.
+From Coq Require Import String Lia.
+From YV Require Import PyBase Token Utils Scanner PState Parser Expand Math Exec ExpandSites MathSites
+                       Catalogue.
 Open Scope Z_scope.
 
 Theorem C10_one_placeholder : forall T st ts fp nr out p ph rest0,
@@ -33,6 +41,51 @@ Theorem C10_one_placeholder : forall T st ts fp nr out p ph rest0,
     get_repls (set_repls st false (ph :: rest0)) false = ph :: rest0.
 Proof. exact replace_section_inline. Qed.
 Print Assumptions C10_one_placeholder.
+
+Theorem C10_formula_through_the_loop : forall rd k st t body c rest p ph rest0,
+  buf_is_space c = false -> tk c <> KPar -> mem_str (txt c) inline_stops = true ->
+  Forall (mok st inline_stops) body -> (mmu body < k)%nat ->
+  let ts := flat_map (mconv py_tables st) body in
+  first_pos ts = Ok p ->
+  forallb is_mspace ts = false ->
+  rotate (get_repls st false) = ph :: rest0 ->
+  exists sp1 pc sp2,
+    expand_inline_math py_tables (exec py_tables rd k) st (body ++ c :: rest) t =
+      Ok (set_repls st false (ph :: rest0),
+          ([ActionT (pos t)] ++ sp1 ++ [TextF p ph] ++ pc ++ sp2 ++ [ActionT p], rest)) /\
+    sp1 = (match ts with
+           | t0 :: _ => if is_mspace t0 then [SpaceF p s_space] else []
+           | [] => [] end) /\
+    (pc = [] \/ exists ch, pc = [TextF p [ch]] /\ last_char py_tables ts = [ch]
+                           /\ mem_str [ch] (t_math_punctuation py_tables) = true) /\
+    sp2 = (match rev ts with
+           | t1 :: _ => if is_mspace t1 then [SpaceF p s_space] else []
+           | [] => [] end) /\
+    get_repls (set_repls st false (ph :: rest0)) false = ph :: rest0.
+Proof. exact (inline_math_plain py_tables). Qed.
+Print Assumptions C10_formula_through_the_loop.
+
+(* the premises on the scan of "$ a+b.$ x": second placeholder of the
+   English collection, the full stop, pinned at the first maths token *)
+Example C10_loop_example :
+  let st0 := init_state py_tables (s2l "en") false false true in
+  match fst (scan (t_scan py_tables) (s2l "$ a+\beta_i \leq b.$ x")) with
+  | t :: r =>
+      match expand_inline_math py_tables (exec py_tables (fun _ => None) 50) st0 r t with
+      | Ok (st, (o, rest)) => Some (map (fun t => (tk t, pos t, txt t, pfix t)) o, length rest)
+      | _ => None end
+  | [] => None end
+  = Some ([(KAction, 0, [], false); (KText, 2, s2l "C-C-C", true);
+           (KText, 2, s2l ".", true); (KAction, 2, [], false)], 2%nat).
+Proof. vm_compute. reflexivity. Qed.
+Example C10_loop_example_premises :
+  let st0 := init_state py_tables (s2l "en") false false true in
+  match fst (scan (t_scan py_tables) (s2l "$ a+\beta_i \leq b.$ x")) with
+  | t :: r => forallb (mokb st0 inline_stops) (firstn 11 r) = true /\
+              option_map txt (nth_error r 11) = Some (s2l "$") /\
+              (mmu (firstn 11 r) < 50)%nat
+  | [] => False end.
+Proof. vm_compute. repeat split; lia. Qed.
 
 (* successive formulas: cyclic *)
 Theorem C10_rotation_cycle : forall l, Nat.iter (length l) rotate l = l.
